@@ -128,6 +128,8 @@ def bad_message(gen, how):
 POLICIES = {
     "idem": (2, 30.0), "nonidem": (0, 30.0), "conn": (0, 1.0),
     "short": (1, 0.5), "long": (2, 120.0),
+    # degenerate but constructible: a message that has expired the moment it is accepted
+    "zero": (1, 0.0), "neg": (2, -5.0),
 }
 
 
